@@ -151,12 +151,19 @@ class Findings:
         self.by_key.setdefault("circuit:" + circ_text(ops), []).append((what, replay))
 
     def report(self, ctx, limit=60):
-        for n, (k, lst) in enumerate(sorted(self.by_key.items())):
-            if n >= limit:
-                break
-            what, _ = lst[0]
-            ctx.violation(k, f"{k}: {len(lst)} circuit(s) disagree with the documented gate semantics, e.g. {what}",
+        # angle-expression variants of an operation whose plain form already fails are the same finding
+        merged = {}
+        for k, lst in self.by_key.items():
+            base = k.split("/angle:")[0]
+            merged.setdefault(base if base in self.by_key else k, []).extend(lst)
+        # one finding per operation first, so that no operation is hidden by the limit
+        order = sorted(merged, key=lambda k: ("/angle:" in k, k))
+        for k in order[:limit]:
+            lst = merged[k]
+            ctx.violation(k, f"{k}: {len(lst)} circuit(s) disagree with the documented gate semantics, e.g. {lst[0][0]}",
                           {"cases": [r for _, r in lst[:10]]})
+        if len(order) > limit:
+            ctx.log(f"{len(order) - limit} further finding keys not reported: {order[limit:limit + 20]}")
 
 
 def gen_phase(ctx, cfg, find, stats, bad_preps):
